@@ -1818,6 +1818,21 @@ class HTMLDependency(MetadataNode):
                     + f"{self.name}-{self.version}"
                 )
 
+    def __copy__(self) -> "HTMLDependency":
+        # A copy shares no mutable container with the original (copies of a MetadataNode
+        # must be independent): the item lists and `source` are deep-copied, and the nodes
+        # of `head` are copied one by one (nothing is expanded).
+        cls = self.__class__
+        cp = cls.__new__(cls)
+        cp.__dict__.update(self.__dict__)
+        cp.source = deepcopy(self.source)
+        cp.script = deepcopy(self.script)
+        cp.stylesheet = deepcopy(self.stylesheet)
+        cp.meta = deepcopy(self.meta)
+        if self.head is not None:
+            cp.head = _copy_tag_nodes(self.head)
+        return cp
+
     def __repr__(self):
         return f'<HTMLDependency "{self.name}-{self.version}">'
 
@@ -1826,6 +1841,20 @@ class HTMLDependency(MetadataNode):
 
     def __eq__(self, other: Any) -> bool:
         return _equals_impl(self, other)
+
+
+def _copy_tag_nodes(x: TagList) -> TagList:
+    # Structure-preserving copy of a child list: new TagList, new Tag (with new attrs and
+    # children) and new MetadataNode objects; other children are kept as they are.
+    cp = copy(x)
+    for i, child in enumerate(cp):
+        if isinstance(child, Tag):
+            child_cp = copy(child)
+            child_cp.children = _copy_tag_nodes(child.children)
+            cp[i] = child_cp
+        elif isinstance(child, MetadataNode):
+            cp[i] = copy(child)
+    return cp
 
 
 def _resolve_dependencies(deps: list[HTMLDependency]) -> list[HTMLDependency]:
